@@ -124,11 +124,13 @@ pub struct SweepOpts {
     pub class: String,
     /// also observe len/is_empty/n_levels/sigma
     pub shape: bool,
+    /// up to this length every position (get) and every occurring symbol is visited at least once
+    pub linear_limit: usize,
 }
 
 impl Default for SweepOpts {
     fn default() -> Self {
-        SweepOpts { dense_limit: 8193, sym_cap: 40, unchecked: false, class: String::new(), shape: true }
+        SweepOpts { dense_limit: 8193, sym_cap: 40, unchecked: false, class: String::new(), shape: true, linear_limit: 1 << 21 }
     }
 }
 
@@ -161,6 +163,24 @@ pub fn sweep_tree<X: Tree>(ctx: &mut Ctx, t: &X, r: &RefSeq<X::T>, o: &SweepOpts
         ctx.obs("get", cl, 0, i as u64, 0, Exp::Is(want), || t.get_(i));
         if o.unchecked && i < n {
             ctx.obs("get_unchecked", cl, 0, i as u64, 0, Exp::Is(r.seq[i]), || unsafe { t.get_unchecked_(i) });
+        }
+    }
+    if n > o.dense_limit && n <= o.linear_limit {
+        // linear passes: every position once, every occurring symbol with a handful of arguments
+        for i in 0..n {
+            ctx.obs("get", cl, 0, i as u64, 0, Exp::Is(Some(r.seq[i])), || t.get_(i));
+        }
+    }
+    if r.occ.len() > o.sym_cap && n <= o.linear_limit {
+        for (&c, occ) in r.occ.iter() {
+            let cu = c.to_u128();
+            let cnt = occ.len();
+            for i in [n / 2, n] {
+                ctx.obs("rank", cl, cu, i as u64, 0, Exp::Is(Some(r.rank(c, i))), || t.rank_(c, i));
+            }
+            for k in [0, cnt - 1, cnt] {
+                ctx.obs("select", cl, cu, k as u64, 0, Exp::Is(r.select(c, k)), || t.select_(c, k));
+            }
         }
     }
     let syms = symbols(r, o.sym_cap);
